@@ -238,6 +238,15 @@ for _k, (_x, _y) in enumerate(_SHAPES):
     NEGATIVES.append(("label-conflict-shape-%d" % _k, ["mark_type 1 0 t", "mark_label 1 3 %s" % _x, "X", "mark_set 1 3"],
                 ["mark_type 1 0 t", "mark_label 1 3 %s" % _y, "X"]))
     NEGATIVES.append(("title-conflict-shape-%d" % _k, ["mark_type 1 0 %s" % _x, "X", "mark_set 1 4"], ["mark_type 1 0 %s" % _y, "X"]))
+# a conflict among three or four threads, the deviating thread first, in the middle or last
+_OK = ["mark_type 1 1 t", "mark_label 1 3 a", "X", "mark_push 1 3", "mark_pop 1 3"]
+for _kind, _bad in (("title", ["mark_type 1 1 other", "X"]), ("chantype", ["mark_type 1 0 t", "X"]),
+                    ("label", ["mark_type 1 1 t", "mark_label 1 3 b", "X"])):
+    for _n in (3, 4):
+        for _pos in range(_n):
+            _ths = [list(_OK) for _ in range(_n)]
+            _ths[_pos] = _bad
+            NEGATIVES.append(tuple(["%s-conflict-%dthreads-pos%d" % (_kind, _n, _pos)] + _ths))
 # controls: the same shapes without the misuse must be accepted
 CONTROLS = [
     ("ctl-agreeing-definitions", ["mark_type 1 0 t", "mark_label 1 3 a", "X", "mark_set 1 3"],
@@ -250,18 +259,19 @@ CONTROLS = [
 
 def run_negative(case):
     chk, drv, plain = _CTX["chk"], _CTX["drv"], _CTX["plain"]
-    name, a, b = case
+    name, a, b = case[:3]
+    more = list(case[3:])        # further threads (position of the conflicting one matters)
     wd = os.path.join(chk.scratch, "n-%s" % name)
     res = {"name": name, "viol": None, "where": None}
     try:
         os.makedirs(wd)
         out = ["proc 1 node 40"]
-        for k, ops in enumerate([a, b]):
+        for k, ops in enumerate([a, b] + more):
             if ops is None:
                 continue
             out += ["thread", "init %d" % (900 + k)]
             if k == 0:
-                out += ["cpu 0 0", "cpu 1 1"]
+                out += ["cpu %d %d" % (c_, c_) for c_ in range(2 + len(more))]
             for o in ops:
                 out.append("ev OHx now %s" % obs.i32(k, 900 + k, 0).hex() if o == "X" else o)
             out += ["ev OHe now -", "flush", "free", "end"]
